@@ -12,7 +12,7 @@
 # See the License for the specific language governing permissions and
 # limitations under the License.
 
-from math import factorial
+from math import factorial, prod, sqrt
 
 import numpy as np
 
@@ -45,7 +45,7 @@ class SLOS:
             input = output
 
         # Renormalise the output with the overall factorial term and return
-        m = 1 / np.sqrt(vector_factorial(input_state.s))
+        m = 1 / sqrt(vector_factorial(input_state.s))
         return {k: v * m for k, v in input.items()}
 
 
@@ -67,7 +67,7 @@ def a_i_dagger(dist: dict, mode: int, multiplier: complex) -> dict:
 
 def vector_factorial(vector: list) -> int:
     """Calculates the product of factorials of the elements of the vector v"""
-    return int(np.prod([factorial(i) for i in vector]))
+    return prod([factorial(i) for i in vector])
 
 
 def add_dicts(dict1: dict, dict2: dict) -> dict:
